@@ -7,93 +7,405 @@ open PhyVerif.C18 (Cell)
 
 variable {α : Type} [Zero α]
 
-/-! ### assignments, unreadable files, `cluster_info` -/
+/-! ### the assignment file: found by name, written in place, created by the first load -/
 
-theorem clusters_last_saved (render : Cell → String) (scale : α → α) (d : Disk α) (ops : List Op) :
-    (run render scale d ops).clusters = (absRun ⟨d.clusters, []⟩ ops).clusters := by
-  suffices h : ∀ (d : Disk α) (a : Abs), d.clusters = a.clusters →
-      (run render scale d ops).clusters = (absRun a ops).clusters from h d _ rfl
-  induction ops with
-  | nil => intro d a h; exact h
-  | cons op ops ih =>
-    intro d a h
-    simp only [run, absRun, List.foldl_cons] at ih ⊢
-    apply ih
-    cases op <;> simp [step, absStep, h]
+theorem find_writeAssign_hit (P : CName → Bool) (sc : List Nat) :
+    ∀ (l : List (CName × List Nat)) (p : CName × List Nat),
+      l.find? (fun q => P q.1) = some p →
+      (writeAssign p.1 sc l).find? (fun q => P q.1) = some (p.1, sc)
+  | [], p, h => by simp at h
+  | q :: qs, p, h => by
+    by_cases hq : P q.1 = true
+    · have hqp : q = p := by simpa [List.find?_cons, hq] using h
+      subst hqp
+      simp [writeAssign, hq]
+    · have hq' : P q.1 = false := by simpa using hq
+      have h' : qs.find? (fun q => P q.1) = some p := by simpa [List.find?_cons, hq'] using h
+      have hp : P p.1 = true := by simpa using List.find?_some h'
+      have hne : q.1 ≠ p.1 := fun e => by rw [e, hp] at hq'; cases hq'
+      simp only [writeAssign, hne, if_false, List.find?_cons, hq']
+      exact find_writeAssign_hit P sc qs p h'
 
-theorem unreadable_ignored (parse : String → Cell) (files : List (FName × File)) (name : FName) :
-    metadataView parse (putFile files name .unreadable) =
-      metadataView parse (files.filter fun p => p.1 != name) := by
+theorem find_writeAssign_miss (Q : CName → Bool) (name : CName) (hn : Q name = false) (sc : List Nat) :
+    ∀ (l : List (CName × List Nat)), l.find? (fun q => Q q.1) = none →
+      (writeAssign name sc l).find? (fun q => Q q.1) = none
+  | [], _ => by simp [writeAssign, hn]
+  | q :: qs, h => by
+    have hq : Q q.1 = false := by
+      have := List.find?_eq_none.1 h q (List.mem_cons_self ..)
+      simpa using this
+    have h' : qs.find? (fun q => Q q.1) = none := by simpa [List.find?_cons, hq] using h
+    by_cases e : q.1 = name
+    · simp [writeAssign, e, hn, h']
+    · simp only [writeAssign, e, if_false, List.find?_cons, hq]
+      exact find_writeAssign_miss Q name hn sc qs h'
+
+/-- a save is found again by the loader: the file the save resolves is the file the next load resolves -/
+theorem findAssign_write (l : List (CName × List Nat)) (p : CName × List Nat) (sc : List Nat)
+    (h : findAssign l = some p) : findAssign (writeAssign p.1 sc l) = some (p.1, sc) := by
+  unfold findAssign at h ⊢
+  cases h1 : l.find? (fun q => q.1.isNone) with
+  | some p' =>
+    rw [h1] at h
+    have hpp : p' = p := by simpa using h
+    subst hpp
+    rw [find_writeAssign_hit (fun n => n.isNone) sc l p' h1]
+  | none =>
+    rw [h1] at h
+    have h2 : l.find? (fun q => q.1.isSome) = some p := h
+    have hp : p.1.isSome = true := by simpa using List.find?_some h2
+    have hn : p.1.isNone = false := by
+      cases hp1 : p.1 with
+      | none => rw [hp1] at hp; cases hp
+      | some _ => rfl
+    rw [find_writeAssign_miss (fun n => n.isNone) p.1 hn sc l h1]
+    exact find_writeAssign_hit (fun n => n.isSome) sc l p h2
+
+/-- no file matches either pattern only when there is no assignment file at all -/
+theorem findAssign_none (l : List (CName × List Nat)) (h : findAssign l = none) : l = [] := by
+  cases l with
+  | nil => rfl
+  | cons q qs =>
+    exfalso
+    unfold findAssign at h
+    cases h1 : (q :: qs).find? (fun q => q.1.isNone) with
+    | some p => rw [h1] at h; cases h
+    | none =>
+      rw [h1] at h
+      have h2 : (q :: qs).find? (fun q => q.1.isSome) = none := h
+      have a := List.find?_eq_none.1 h1 q (List.mem_cons_self ..)
+      have b := List.find?_eq_none.1 h2 q (List.mem_cons_self ..)
+      cases hq : q.1 <;> simp [hq] at a b
+
+theorem findAssign_mem (l : List (CName × List Nat)) (p : CName × List Nat) (h : findAssign l = some p) :
+    p ∈ l := by
+  unfold findAssign at h
+  cases h1 : l.find? (fun q => q.1.isNone) with
+  | some p' =>
+    rw [h1] at h
+    have hpp : p' = p := by simpa using h
+    subst hpp
+    exact List.mem_of_find?_eq_some h1
+  | none =>
+    rw [h1] at h
+    exact List.mem_of_find?_eq_some h
+
+theorem writeAssign_names (name : CName) (sc : List Nat) :
+    ∀ (l : List (CName × List Nat)), name ∈ l.map (·.1) → (writeAssign name sc l).map (·.1) = l.map (·.1)
+  | [], h => by simp at h
+  | q :: qs, h => by
+    by_cases e : q.1 = name
+    · simp [writeAssign, e]
+    · have h' : name ∈ qs.map (·.1) := by
+        rw [List.map_cons, List.mem_cons] at h
+        rcases h with h1 | h1
+        · exact absurd h1.symm e
+        · exact h1
+      simp only [writeAssign, e, if_false, List.map_cons, writeAssign_names name sc qs h']
+
+theorem conflict_names (l l' : List (CName × List Nat)) (h : l'.map (·.1) = l.map (·.1)) :
+    Conflict l' → Conflict l := by
+  have key : ∀ (P : CName → Prop), (∃ p ∈ l', P p.1) → ∃ p ∈ l, P p.1 := by
+    intro P ⟨p, hp, hP⟩
+    have : p.1 ∈ l.map (·.1) := h ▸ List.mem_map.2 ⟨p, hp, rfl⟩
+    obtain ⟨q, hq, hqe⟩ := List.mem_map.1 this
+    exact ⟨q, hq, by rw [hqe]; exact hP⟩
+  intro ⟨a, b⟩
+  exact ⟨key (fun n => n.isNone = true) a, key (fun n => n.isSome = true) b⟩
+
+/-- one step of a session opened by a load: what the next load shows follows the abstract state, the next load still
+finds its file, and no conflict between the two name patterns arises -/
+theorem shown_step (render : Cell → String) (scale : α → α) (d : Disk α) (fs : List (String × List (Nat × Cell)))
+    (op : Op) (hfile : (findAssign d.assign).isSome) :
+    shown (step render scale d op) = (absStep ⟨shown d, fs⟩ op).clusters ∧
+    (findAssign (step render scale d op).assign).isSome ∧
+    (¬ Conflict d.assign → ¬ Conflict (step render scale d op).assign) := by
+  obtain ⟨p, hp⟩ := Option.isSome_iff_exists.1 hfile
+  cases op with
+  | saveClusters sc =>
+    have hw := findAssign_write d.assign p sc hp
+    have hn := writeAssign_names p.1 sc d.assign (List.mem_map.2 ⟨p, findAssign_mem _ _ hp, rfl⟩)
+    refine ⟨?_, ?_, ?_⟩
+    · simp only [step, hp, shown, hw, absStep]
+    · simp only [step, hp, hw, Option.isSome_some]
+    · intro hnc hc
+      apply hnc
+      simp only [step, hp] at hc
+      exact conflict_names _ _ hn hc
+  | saveMeta field m => exact ⟨rfl, hfile, id⟩
+  | writeFile name f => exact ⟨rfl, hfile, id⟩
+  | saveSubset sel maxN =>
+    simp only [step]
+    split
+    · exact ⟨rfl, hfile, id⟩
+    · exact ⟨rfl, hfile, id⟩
+  | close => exact ⟨rfl, hfile, id⟩
+  | reload =>
+    have hs : step render scale d .reload = d := by simp only [step, hp]
+    rw [hs]
+    exact ⟨rfl, hfile, id⟩
+
+theorem shown_run (render : Cell → String) (scale : α → α) : ∀ (ops : List Op) (d : Disk α)
+    (fs : List (String × List (Nat × Cell))), (findAssign d.assign).isSome →
+    shown (run render scale d ops) = (absRun ⟨shown d, fs⟩ ops).clusters ∧
+    (findAssign (run render scale d ops).assign).isSome ∧
+    (¬ Conflict d.assign → ¬ Conflict (run render scale d ops).assign)
+  | [], _, _, h => ⟨rfl, h, id⟩
+  | op :: ops, d, fs, h => by
+    simp only [run, absRun, List.foldl_cons]
+    obtain ⟨h1, h2, h3⟩ := shown_step render scale d fs op h
+    obtain ⟨k1, k2, k3⟩ := shown_run render scale ops (step render scale d op) (absStep ⟨shown d, fs⟩ op).fields h2
+    refine ⟨?_, k2, fun hnc => k3 (h3 hnc)⟩
+    rw [show run render scale (step render scale d op) ops =
+      List.foldl (step render scale) (step render scale d op) ops from rfl] at k1
+    rw [k1, h1]
+    rfl
+
+theorem clusters_last_saved (render : Cell → String) (scale : α → α) (d : Disk α)
+    (hfile : (findAssign d.assign).isSome) (ops : List Op) :
+    shown (run render scale d ops) = (absRun ⟨shown d, []⟩ ops).clusters :=
+  (shown_run render scale ops d [] hfile).1
+
+theorem assign_stays_loadable (render : Cell → String) (scale : α → α) (d : Disk α)
+    (hfile : (findAssign d.assign).isSome) (hnc : ¬ Conflict d.assign) (ops : List Op) :
+    (findAssign (run render scale d ops).assign).isSome ∧ ¬ Conflict (run render scale d ops).assign :=
+  ⟨(shown_run render scale ops d [] hfile).2.1, (shown_run render scale ops d [] hfile).2.2 hnc⟩
+
+/-- the load that opens a session: a directory without an assignment file gets `spike_clusters.npy` with the content
+of `spike_templates.npy`, any other directory is left alone; afterwards a file is found, and it shows what this load
+showed -/
+theorem first_load (render : Cell → String) (scale : α → α) (d : Disk α) :
+    (findAssign (step render scale d .reload).assign).isSome ∧
+    shown (step render scale d .reload) = shown d ∧
+    ((findAssign d.assign).isSome → step render scale d .reload = d) ∧
+    (findAssign d.assign = none →
+      (step render scale d .reload).assign = [(none, d.fixed.spikeTemplates)] ∧
+      ¬ Conflict (step render scale d .reload).assign) ∧
+    (step render scale d .reload).files = d.files ∧ (step render scale d .reload).subset = d.subset ∧
+    (step render scale d .reload).fixed = d.fixed := by
+  cases h : findAssign d.assign with
+  | some p =>
+    have hs : step render scale d .reload = d := by simp only [step, h]
+    rw [hs]
+    exact ⟨by rw [h]; rfl, rfl, fun _ => rfl, fun h' => (by cases h'), rfl, rfl, rfl⟩
+  | none =>
+    have he := findAssign_none _ h
+    have hs : step render scale d .reload = { d with assign := [(none, d.fixed.spikeTemplates)] } := by
+      simp only [step, h]
+      rw [he]
+      rfl
+    rw [hs]
+    refine ⟨rfl, ?_, fun h' => (by cases h'), fun _ => ⟨rfl, ?_⟩, rfl, rfl, rfl⟩
+    · simp only [shown, h]
+      rfl
+    · intro ⟨_, ⟨q, hq, hs⟩⟩
+      simp only [List.mem_singleton] at hq
+      subst hq
+      cases hs
+
+theorem unreadable_ignored (parse : String → Cell) (fnum : Nat → Option Int) (files : List (FName × File)) (name : FName) :
+    metadataView parse fnum (putFile files name .unreadable) =
+      metadataView parse fnum (files.filter fun p => p.1 != name) := by
   obtain ⟨s, b⟩ := name
   cases b <;> simp [metadataView, metadataViewIn, viewStep, putFile, List.foldl_append, loadMetadata, List.filter_append]
 
-theorem cluster_info_excluded (parse : String → Cell) (files : List (FName × File)) (tsv : Bool) (f : File) :
-    metadataView parse (putFile files ("cluster_info", tsv) f) =
-      metadataView parse (files.filter fun p => p.1 != ("cluster_info", tsv)) := by
+theorem cluster_info_excluded (parse : String → Cell) (fnum : Nat → Option Int) (files : List (FName × File)) (tsv : Bool) (f : File) :
+    metadataView parse fnum (putFile files ("cluster_info", tsv) f) =
+      metadataView parse fnum (files.filter fun p => p.1 != ("cluster_info", tsv)) := by
   cases tsv <;> simp [metadataView, metadataViewIn, viewStep, putFile, List.foldl_append, List.filter_append]
+
+/-! ### the dict of one field: keyed by the parsed id value -/
+
+theorem dictSet_append (fnum : Nat → Option Int) (k v : Cell) :
+    ∀ (d : List (Cell × Cell)), (∀ q ∈ d, keyOf fnum q.1 ≠ keyOf fnum k) → dictSet fnum k v d = d ++ [(k, v)]
+  | [], _ => rfl
+  | q :: qs, h => by
+    have hq := h q (List.mem_cons_self ..)
+    simp only [dictSet, hq, if_false, List.cons_append,
+      dictSet_append fnum k v qs (fun r hr => h r (List.mem_cons_of_mem _ hr))]
+
+/-- `d[k] = v` then `d.get(κ)`: the class of `k` now shows `v` under the key object it had before (or `k` when new);
+every other class is untouched -/
+theorem dictGet_dictSet (fnum : Nat → Option Int) (k v : Cell) (κ : Key) :
+    ∀ (d : List (Cell × Cell)), dictGet fnum (dictSet fnum k v d) κ =
+      if keyOf fnum k = κ then some (((dictGet fnum d κ).map (·.1)).getD k, v) else dictGet fnum d κ
+  | [] => by
+    by_cases h : keyOf fnum k = κ <;> simp [dictSet, dictGet, h]
+  | q :: qs => by
+    have ih := dictGet_dictSet fnum k v κ qs
+    by_cases hq : keyOf fnum q.1 = keyOf fnum k
+    · have hd : dictSet fnum k v (q :: qs) = (q.1, v) :: qs := by simp only [dictSet, hq, if_true]
+      rw [hd]
+      by_cases h : keyOf fnum k = κ
+      · have hb : (keyOf fnum q.1 == κ) = true := by rw [hq]; simpa using h
+        simp only [dictGet, List.find?_cons, hb, h, if_true, Option.map_some, Option.getD_some]
+      · have hb : (keyOf fnum q.1 == κ) = false := by rw [hq]; simpa using h
+        simp only [dictGet, List.find?_cons, hb, h, if_false]
+    · have hd : dictSet fnum k v (q :: qs) = q :: dictSet fnum k v qs := by simp only [dictSet, hq, if_false]
+      rw [hd]
+      by_cases hqk : keyOf fnum q.1 = κ
+      · have h : ¬ keyOf fnum k = κ := fun e => hq (hqk.trans e.symm)
+        have hb : (keyOf fnum q.1 == κ) = true := by simpa using hqk
+        simp only [dictGet, List.find?_cons, hb, h, if_false]
+      · have hb : (keyOf fnum q.1 == κ) = false := by simpa using hqk
+        simp only [dictGet, List.find?_cons, hb]
+        exact ih
+
+/-- the ids of a dict are pairwise different AS KEYS (the Python dict invariant) -/
+theorem dictSet_nodup (fnum : Nat → Option Int) (k v : Cell) :
+    ∀ (d : List (Cell × Cell)), (d.map fun q => keyOf fnum q.1).Nodup →
+      ((dictSet fnum k v d).map fun q => keyOf fnum q.1).Nodup ∧
+      ∀ κ, κ ∈ (dictSet fnum k v d).map (fun q => keyOf fnum q.1) →
+        κ = keyOf fnum k ∨ κ ∈ d.map fun q => keyOf fnum q.1
+  | [], _ => by simp [dictSet]
+  | q :: qs, h => by
+    rw [List.map_cons, List.nodup_cons] at h
+    by_cases hq : keyOf fnum q.1 = keyOf fnum k
+    · have hd : dictSet fnum k v (q :: qs) = (q.1, v) :: qs := by simp only [dictSet, hq, if_true]
+      rw [hd, List.map_cons, List.nodup_cons]
+      refine ⟨⟨h.1, h.2⟩, ?_⟩
+      intro κ hκ
+      rcases List.mem_cons.1 hκ with e | e
+      · exact Or.inl (e.trans hq)
+      · exact Or.inr (List.mem_cons_of_mem _ e)
+    · obtain ⟨i1, i2⟩ := dictSet_nodup fnum k v qs h.2
+      have hd : dictSet fnum k v (q :: qs) = q :: dictSet fnum k v qs := by simp only [dictSet, hq, if_false]
+      rw [hd, List.map_cons, List.nodup_cons]
+      refine ⟨⟨?_, i1⟩, ?_⟩
+      · intro hm
+        rcases i2 _ hm with e | e
+        · exact hq e
+        · exact h.1 e
+      · intro κ hκ
+        rcases List.mem_cons.1 hκ with e | e
+        · exact Or.inr (e ▸ List.mem_cons_self ..)
+        · rcases i2 κ e with e' | e'
+          · exact Or.inl e'
+          · exact Or.inr (List.mem_cons_of_mem _ e')
+
+/-- a dict filled row by row (`rows`: parsed id, parsed value): for every key class, the VALUE is the one of the last
+row of that class and the KEY object the one of the first row of that class (or what the dict held before) -/
+theorem dictGet_foldl (fnum : Nat → Option Int) (κ : Key) :
+    ∀ (rows : List (Cell × Cell)) (acc : List (Cell × Cell)),
+      (dictGet fnum (rows.foldl (fun d r => dictSet fnum r.1 r.2 d) acc) κ).map (·.2) =
+        ((rows.reverse.find? fun r => keyOf fnum r.1 == κ).map (·.2)).or ((dictGet fnum acc κ).map (·.2)) ∧
+      (dictGet fnum (rows.foldl (fun d r => dictSet fnum r.1 r.2 d) acc) κ).map (·.1) =
+        ((dictGet fnum acc κ).map (·.1)).or ((rows.find? fun r => keyOf fnum r.1 == κ).map (·.1))
+  | [], acc => by simp
+  | r :: rows, acc => by
+    obtain ⟨i1, i2⟩ := dictGet_foldl fnum κ rows (dictSet fnum r.1 r.2 acc)
+    rw [List.foldl_cons, i1, i2, dictGet_dictSet]
+    by_cases h : keyOf fnum r.1 = κ
+    · have hb : (keyOf fnum r.1 == κ) = true := by simpa using h
+      refine ⟨?_, ?_⟩
+      · simp only [h, if_true, Option.map_some, List.reverse_cons, List.find?_append, Option.map_or]
+        cases h1 : (rows.reverse.find? fun r => keyOf fnum r.1 == κ) with
+        | some x => simp
+        | none => simp [hb]
+      · simp only [h, if_true, Option.map_some, List.find?_cons]
+        cases h1 : dictGet fnum acc κ <;> simp
+    · have hb : (keyOf fnum r.1 == κ) = false := by simpa using h
+      refine ⟨?_, ?_⟩
+      · simp only [h, if_false, List.reverse_cons, List.find?_append, Option.map_or]
+        cases h1 : (rows.reverse.find? fun r => keyOf fnum r.1 == κ) with
+        | some x => simp
+        | none => simp [hb]
+      · simp only [h, if_false, List.find?_cons, hb]
 
 /-! ### metadata refinement -/
 
 def cellPair (p : Nat × Cell) : Cell × Cell := (.int p.1, p.2)
 
 /-- the per-row update of `loadMetadata` -/
-def rowStep (parse : String → Cell) (out : List (String × List (Cell × Cell)))
+def rowStep (parse : String → Cell) (fnum : Nat → Option Int) (out : List (String × List (Cell × Cell)))
     (row : List (String × String)) : List (String × List (Cell × Cell)) :=
   match row.reverse.lookup "cluster_id" with
   | none => out
   | some cid =>
     (row.filter fun p => p.1 != "cluster_id").foldl (fun out2 p =>
       let old := (out2.lookup p.1).getD []
-      let upd := (old.filter fun q => q.1 != parse cid) ++ [(parse cid, parse p.2)]
-      (out2.filter fun q => q.1 != p.1) ++ [(p.1, upd)]) out
+      (out2.filter fun q => q.1 != p.1) ++ [(p.1, dictSet fnum (parse cid) (parse p.2) old)]) out
 
-theorem loadMetadata_table (parse : String → Cell) (header : List String) (rows : List (List String)) :
-    loadMetadata parse (.table header rows) =
-      some ((rows.map fun r => ((header.zip r).filter fun p => p.2 != "")).foldl (rowStep parse) []) := rfl
+theorem loadMetadata_table (parse : String → Cell) (fnum : Nat → Option Int) (header : List String)
+    (rows : List (List String)) :
+    loadMetadata parse fnum (.table header rows) =
+      some ((rows.map fun r => ((header.zip r).filter fun p => p.2 != "")).foldl (rowStep parse fnum) []) := rfl
 
-/-- the update a `simpleTable` row performs -/
-def addRow (f : String) (out : List (String × List (Cell × Cell))) (p : Nat × Cell) :
+/-- the update a row of a two-column table performs: `out[f][k] = v` -/
+def setRow (fnum : Nat → Option Int) (f : String) (out : List (String × List (Cell × Cell))) (kv : Cell × Cell) :
     List (String × List (Cell × Cell)) :=
-  (out.filter fun q => q.1 != f) ++
-    [(f, (((out.lookup f).getD []).filter fun q => q.1 != Cell.int p.1) ++ [cellPair p])]
+  (out.filter fun q => q.1 != f) ++ [(f, dictSet fnum kv.1 kv.2 ((out.lookup f).getD []))]
 
-theorem rowStep_simple (render : Cell → String) (parse : String → Cell)
-    (hrt : ∀ c, parse (render c) = c) (hne : ∀ c, render c ≠ "")
-    (hid : ∀ n : Nat, parse (toString n) = .int n)
-    (f : String) (hf : f ≠ "cluster_id") (out : List (String × List (Cell × Cell))) (p : Nat × Cell) :
-    rowStep parse out ((["cluster_id", f].zip [toString p.1, render p.2]).filter fun p => p.2 != "") =
-      addRow f out p := by
+theorem rowStep_two (parse : String → Cell) (fnum : Nat → Option Int)
+    (f : String) (hf : f ≠ "cluster_id") (out : List (String × List (Cell × Cell))) (c v : String)
+    (hc : c ≠ "") (hv : v ≠ "") :
+    rowStep parse fnum out ((["cluster_id", f].zip [c, v]).filter fun p => p.2 != "") =
+      setRow fnum f out (parse c, parse v) := by
   have hf' : (f != "cluster_id") = true := by simpa using hf
-  have hne' : (render p.2 != "") = true := by simpa using hne p.2
-  have hts : (toString p.1 != "") = true := by simp
-  have hrow : ((["cluster_id", f].zip [toString p.1, render p.2]).filter fun p => p.2 != "") =
-      [("cluster_id", toString p.1), (f, render p.2)] := by
-    simp only [List.zip_cons_cons, List.zip_nil_right, List.filter_cons, List.filter_nil, hne', hts,
+  have hv' : (v != "") = true := by simpa using hv
+  have hc' : (c != "") = true := by simpa using hc
+  have hrow : ((["cluster_id", f].zip [c, v]).filter fun p => p.2 != "") =
+      [("cluster_id", c), (f, v)] := by
+    simp only [List.zip_cons_cons, List.zip_nil_right, List.filter_cons, List.filter_nil, hv', hc',
       if_true]
   have hfb : ("cluster_id" == f) = false := by simpa using fun h => hf h.symm
-  have hl : List.lookup "cluster_id" [("cluster_id", toString p.1), (f, render p.2)].reverse =
-      some (toString p.1) := by simp [List.lookup_cons, hfb]
-  have hfil : ([("cluster_id", toString p.1), (f, render p.2)].filter fun p => p.1 != "cluster_id") =
-      [(f, render p.2)] := by simp [hf']
+  have hl : List.lookup "cluster_id" [("cluster_id", c), (f, v)].reverse = some c := by
+    simp [List.lookup_cons, hfb]
+  have hfil : ([("cluster_id", c), (f, v)].filter fun p => p.1 != "cluster_id") = [(f, v)] := by simp [hf']
   rw [hrow]
-  simp only [rowStep, hl, hfil, List.foldl_cons, List.foldl_nil, hrt, hid, addRow, cellPair]
+  simp only [rowStep, hl, hfil, List.foldl_cons, List.foldl_nil, setRow]
 
-theorem foldl_addRow (f : String) (data : List (Nat × Cell)) :
+theorem foldl_setRow (fnum : Nat → Option Int) (f : String) :
+    ∀ (rows : List (Cell × Cell)) (acc : List (Cell × Cell)),
+      rows.foldl (setRow fnum f) [(f, acc)] = [(f, rows.foldl (fun d r => dictSet fnum r.1 r.2 d) acc)]
+  | [], _ => rfl
+  | r :: rows, acc => by
+    have h1 : setRow fnum f [(f, acc)] r = [(f, dictSet fnum r.1 r.2 acc)] := by simp [setRow]
+    rw [List.foldl_cons, h1, foldl_setRow fnum f rows, List.foldl_cons]
+
+theorem foldl_congr_mem {β γ : Type} (f g : β → γ → β) :
+    ∀ (l : List γ) (a : β), (∀ a, ∀ x ∈ l, f a x = g a x) → l.foldl f a = l.foldl g a
+  | [], _, _ => rfl
+  | x :: xs, a, h => by
+    rw [List.foldl_cons, List.foldl_cons, h a x (List.mem_cons_self ..)]
+    exact foldl_congr_mem f g xs _ (fun a y hy => h a y (List.mem_cons_of_mem _ hy))
+
+/-- ANY readable two-column file `cluster_id, f` whose cells are all non-empty: the field is the dict filled row by row,
+keyed by the parsed id (so `dictGet_foldl` says which row's value and which row's key a reload shows) -/
+theorem loadMetadata_two_columns (parse : String → Cell) (fnum : Nat → Option Int)
+    (f : String) (hf : f ≠ "cluster_id") (rows : List (String × String))
+    (hne : ∀ r ∈ rows, r.1 ≠ "" ∧ r.2 ≠ "") :
+    loadMetadata parse fnum (.table ["cluster_id", f] (rows.map fun r => [r.1, r.2])) =
+      some (if rows = [] then [] else
+        [(f, (rows.map fun r => (parse r.1, parse r.2)).foldl (fun d r => dictSet fnum r.1 r.2 d) [])]) := by
+  rw [loadMetadata_table, List.map_map, List.foldl_map]
+  refine congrArg some ?_
+  refine (foldl_congr_mem _ (fun a r => setRow fnum f a (parse r.1, parse r.2)) rows [] ?_).trans ?_
+  · intro a r hr
+    exact rowStep_two parse fnum f hf a r.1 r.2 (hne r hr).1 (hne r hr).2
+  · cases rows with
+    | nil => rfl
+    | cons r rs =>
+      have h1 : setRow fnum f [] (parse r.1, parse r.2) = [(f, [(parse r.1, parse r.2)])] := by
+        simp [setRow, dictSet]
+      have h2 : rs.foldl (fun a r => setRow fnum f a (parse r.1, parse r.2)) [(f, [(parse r.1, parse r.2)])] =
+          (rs.map fun r => (parse r.1, parse r.2)).foldl (setRow fnum f) [(f, [(parse r.1, parse r.2)])] := by
+        rw [List.foldl_map]
+      rw [if_neg (List.cons_ne_nil _ _), List.foldl_cons, h1, h2, foldl_setRow, List.map_cons, List.foldl_cons]
+      rfl
+
+theorem foldl_dictSet_sorted (fnum : Nat → Option Int) (data : List (Nat × Cell)) :
     ∀ (acc : List (Cell × Cell)), data.Pairwise (fun a b => a.1 < b.1) →
-      (∀ q ∈ acc, ∀ p ∈ data, q.1 ≠ Cell.int p.1) →
-      data.foldl (addRow f) [(f, acc)] = [(f, acc ++ data.map cellPair)] := by
+      (∀ q ∈ acc, ∀ p ∈ data, keyOf fnum q.1 ≠ Key.num p.1) →
+      (data.map cellPair).foldl (fun d r => dictSet fnum r.1 r.2 d) acc = acc ++ data.map cellPair := by
   induction data with
   | nil => intro acc _ _; simp
   | cons p ps ih =>
     intro acc hs hacc
     rw [List.pairwise_cons] at hs
-    have h1 : addRow f [(f, acc)] p = [(f, acc ++ [cellPair p])] := by
-      have : (acc.filter fun q => q.1 != Cell.int p.1) = acc := by
-        rw [List.filter_eq_self]
-        intro q hq
-        simpa using hacc q hq p (List.mem_cons_self ..)
-      simp [addRow, this]
-    rw [List.foldl_cons, h1, ih _ hs.2]
+    have h1 : dictSet fnum (cellPair p).1 (cellPair p).2 acc = acc ++ [cellPair p] :=
+      dictSet_append fnum _ _ acc (fun q hq => hacc q hq p (List.mem_cons_self ..))
+    rw [List.map_cons, List.foldl_cons, h1, ih _ hs.2]
     · simp
     · intro q hq p' hp'
       rcases List.mem_append.1 hq with hq | hq
@@ -101,32 +413,37 @@ theorem foldl_addRow (f : String) (data : List (Nat × Cell)) :
       · have := hs.1 p' hp'
         simp only [List.mem_singleton] at hq
         subst hq
-        simp only [cellPair, ne_eq, Cell.int.injEq]
+        simp only [cellPair, keyOf, ne_eq, Key.num.injEq]
         omega
 
-theorem loadMetadata_simpleTable (render : Cell → String) (parse : String → Cell)
-    (hrt : ∀ c, parse (render c) = c) (hne : ∀ c, render c ≠ "")
-    (hid : ∀ n : Nat, parse (toString n) = .int n)
+/-- the file `save_metadata` writes reads back as the saved mapping; the codec hypotheses are about the saved cells
+only (`str` / `_try_make_number` satisfy them for integers, floats and strings that are not numerals) -/
+theorem loadMetadata_simpleTable (render : Cell → String) (parse : String → Cell) (fnum : Nat → Option Int)
     (f : String) (hf : f ≠ "cluster_id") (data : List (Nat × Cell))
+    (hrt : ∀ p ∈ data, parse (render p.2) = p.2) (hne : ∀ p ∈ data, render p.2 ≠ "")
+    (hid : ∀ n : Nat, parse (toString n) = .int n)
     (hs : data.Pairwise (fun a b => a.1 < b.1)) :
-    loadMetadata parse (simpleTable render f data) =
+    loadMetadata parse fnum (simpleTable render f data) =
       some (if data = [] then [] else [(f, data.map cellPair)]) := by
+  have hrows : (data.map fun p => [toString p.1, render p.2]) =
+      ((data.map fun p => (toString p.1, render p.2)).map fun r => [r.1, r.2]) := by
+    rw [List.map_map]; rfl
   unfold simpleTable
-  rw [loadMetadata_table, List.map_map, List.foldl_map]
-  simp only [Function.comp, rowStep_simple render parse hrt hne hid f hf]
-  cases data with
-  | nil => rfl
-  | cons p ps =>
-    rw [List.pairwise_cons] at hs
-    have h1 : addRow f [] p = [(f, [cellPair p])] := by simp [addRow]
-    rw [List.foldl_cons, h1, foldl_addRow f ps _ hs.2]
-    · simp
-    · intro q hq p' hp'
-      have := hs.1 p' hp'
-      simp only [List.mem_singleton] at hq
-      subst hq
-      simp only [cellPair, ne_eq, Cell.int.injEq]
-      omega
+  rw [hrows, loadMetadata_two_columns parse fnum f hf]
+  · cases data with
+    | nil => rfl
+    | cons p ps =>
+      have hmap : ((p :: ps).map fun p => (toString p.1, render p.2)).map (fun r => (parse r.1, parse r.2)) =
+          (p :: ps).map cellPair := by
+        rw [List.map_map]
+        apply List.map_congr_left
+        intro q hq
+        simp only [Function.comp, cellPair, hid, hrt q hq]
+      rw [hmap, foldl_dictSet_sorted fnum (p :: ps) [] hs (fun q hq => by simp at hq)]
+      simp
+  · intro r hr
+    obtain ⟨p, hp, rfl⟩ := List.mem_map.1 hr
+    exact ⟨by simp, hne p hp⟩
 
 /-! sortedness of `cleanMeta` -/
 def Sorted (l : List (Nat × Cell)) : Prop := l.Pairwise (fun a b => a.1 < b.1)
@@ -185,10 +502,6 @@ theorem sorted_cleanMeta (m : List (Nat × Option Cell)) : Sorted (cleanMeta m) 
     · exact sorted_insertById _ _ h
     · exact List.Pairwise.filter _ h
 
-/-! the directory written by an `OwnOps` history mirrors the abstract state (after the legacy CSVs) -/
-def fileOf (render : Cell → String) (p : String × List (Nat × Cell)) : FName × File :=
-  (("cluster_" ++ p.1, true), simpleTable render p.1 p.2)
-
 theorem stem_beq (a b : String) : ("cluster_" ++ a == "cluster_" ++ b) = (a == b) := by
   rw [Bool.eq_iff_iff]
   simp only [beq_iff_eq]
@@ -200,80 +513,6 @@ theorem name_bne (a b : String) :
   simp only [bne_iff_ne, ne_eq, Prod.mk.injEq, and_true]
   rw [String.append_right_inj]
 
-theorem files_eq_step (render : Cell → String) (csvs : List (FName × File))
-    (hcsv : ∀ p ∈ csvs, p.1.2 = false) (scale : α → α) (d : Disk α) (a : Abs) (op : Op)
-    (hop : match op with | .writeFile _ _ => False | _ => True)
-    (h : d.files = csvs ++ a.fields.map (fileOf render)) :
-    (step render scale d op).files = csvs ++ (absStep a op).fields.map (fileOf render) := by
-  cases op with
-  | writeFile s f => exact hop.elim
-  | saveMeta field m =>
-    have hc : (csvs.filter fun p => p.1 != (("cluster_" ++ field, true) : FName)) = csvs := by
-      rw [List.filter_eq_self]
-      intro p hp
-      have := hcsv p hp
-      obtain ⟨⟨s, b⟩, f⟩ := p
-      simp only at this
-      subst this
-      simp
-    simp only [step, absStep, putFile, h, List.map_append, List.map_cons, List.map_nil,
-      List.filter_map, List.filter_append, hc, fileOf, List.append_assoc]
-    congr 2
-    congr 1
-    apply List.filter_congr
-    intro p _
-    simp only [Function.comp, fileOf, name_bne]
-  | _ => exact h
-
-theorem files_eq (render : Cell → String) (csvs : List (FName × File))
-    (hcsv : ∀ p ∈ csvs, p.1.2 = false) (scale : α → α) (ops : List Op) :
-    ∀ (d : Disk α) (a : Abs), (∀ op ∈ ops, match op with | .writeFile _ _ => False | _ => True) →
-      d.files = csvs ++ a.fields.map (fileOf render) →
-      (run render scale d ops).files = csvs ++ (absRun a ops).fields.map (fileOf render) := by
-  induction ops with
-  | nil => intro d a _ h; exact h
-  | cons op ops ih =>
-    intro d a hops h
-    simp only [run, absRun, List.foldl_cons] at ih ⊢
-    exact ih _ _ (fun o ho => hops o (List.mem_cons_of_mem _ ho))
-      (files_eq_step render csvs hcsv scale d a op (hops op (List.mem_cons_self ..)) h)
-
-/-- invariant of the abstract metadata state -/
-def FieldsOK (l : List (String × List (Nat × Cell))) : Prop :=
-  (l.map (·.1)).Nodup ∧ ∀ p ∈ l, p.1 ≠ "cluster_id" ∧ Sorted p.2
-
-theorem fieldsOK_upsert (l : List (String × List (Nat × Cell))) (f : String) (m : List (Nat × Option Cell))
-    (hf : f ≠ "cluster_id") (h : FieldsOK l) :
-    FieldsOK ((l.filter fun p => p.1 != f) ++ [(f, cleanMeta m)]) := by
-  refine ⟨?_, ?_⟩
-  · rw [List.map_append, List.nodup_append]
-    refine ⟨?_, by simp, ?_⟩
-    · exact (List.Pairwise.filter _ (List.pairwise_map.1 h.1) |> List.pairwise_map.2)
-    · intro a ha b hb
-      simp only [List.map_cons, List.map_nil, List.mem_singleton] at hb
-      subst hb
-      simp only [List.mem_map, List.mem_filter] at ha
-      obtain ⟨p, ⟨_, hp⟩, rfl⟩ := ha
-      simpa using hp
-  · intro p hp
-    rcases List.mem_append.1 hp with hp | hp
-    · exact h.2 p (List.mem_filter.1 hp).1
-    · simp only [List.mem_singleton] at hp
-      subst hp
-      exact ⟨hf, sorted_cleanMeta m⟩
-
-theorem fieldsOK_run (ops : List Op) :
-    ∀ (a : Abs), OwnOps ops → FieldsOK a.fields → FieldsOK (absRun a ops).fields := by
-  induction ops with
-  | nil => intro a _ h; exact h
-  | cons op ops ih =>
-    intro a hown h
-    simp only [absRun, List.foldl_cons] at ih ⊢
-    apply ih _ (fun o ho => hown o (List.mem_cons_of_mem _ ho))
-    have hop := hown op (List.mem_cons_self ..)
-    cases op with
-    | saveMeta field m => exact fieldsOK_upsert _ _ _ hop h
-    | _ => exact h
 theorem lookup_filter_ne {α β : Type} [BEq α] [LawfulBEq α] (l : List (α × β)) (k s : α) (h : k ≠ s) :
     (l.filter fun p => p.1 != s).lookup k = l.lookup k := by
   induction l with
@@ -308,116 +547,80 @@ theorem lookup_upsert_self {β : Type} (l : List (String × β)) (s : String) (x
   rw [List.lookup_append, this]
   simp
 
+/-! ### a file says nothing about a field that is not in its header -/
 
-theorem metadataView_eq (parse : String → Cell) (files : List (FName × File)) :
-    metadataView parse files =
-      ((files.filter fun p => !p.1.2) ++ (files.filter fun p => p.1.2)).foldl (viewStep parse) [] := rfl
+theorem rowStep_names (parse : String → Cell) (fnum : Nat → Option Int) (S : String → Prop)
+    (out : List (String × List (Cell × Cell))) (row : List (String × String))
+    (hout : ∀ fd ∈ out, S fd.1) (hrow : ∀ p ∈ row, S p.1) :
+    ∀ fd ∈ rowStep parse fnum out row, S fd.1 := by
+  unfold rowStep
+  split
+  · exact hout
+  · rename_i cid _
+    have hrow' : ∀ p ∈ row.filter (fun p => p.1 != "cluster_id"), S p.1 :=
+      fun p hp => hrow p (List.mem_filter.1 hp).1
+    generalize row.filter (fun p => p.1 != "cluster_id") = cells at hrow'
+    induction cells generalizing out with
+    | nil => exact hout
+    | cons c cs ih =>
+      rw [List.foldl_cons]
+      apply ih
+      · intro fd hfd
+        rcases List.mem_append.1 hfd with h | h
+        · exact hout fd (List.mem_filter.1 h).1
+        · simp only [List.mem_singleton] at h
+          subst h
+          exact hrow' c (List.mem_cons_self ..)
+      · exact fun p hp => hrow' p (List.mem_cons_of_mem _ hp)
 
-theorem metadataView_split (render : Cell → String) (parse : String → Cell)
-    (csvs : List (FName × File)) (hcsv : ∀ p ∈ csvs, p.1.2 = false)
-    (l : List (String × List (Nat × Cell))) :
-    metadataView parse (csvs ++ l.map (fileOf render)) =
-      (l.map (fileOf render)).foldl (viewStep parse) (csvs.foldl (viewStep parse) []) := by
-  have h1 : (csvs.filter fun p => !p.1.2) = csvs := by
-    rw [List.filter_eq_self]; intro p hp; simp [hcsv p hp]
-  have h2 : (csvs.filter fun p => p.1.2) = [] := by
-    rw [List.filter_eq_nil_iff]; intro p hp; simp [hcsv p hp]
-  have h3 : ((l.map (fileOf render)).filter fun p => !p.1.2) = [] := by
-    rw [List.filter_eq_nil_iff]; intro p hp
-    obtain ⟨q, _, rfl⟩ := List.mem_map.1 hp
-    simp [fileOf]
-  have h4 : ((l.map (fileOf render)).filter fun p => p.1.2) = l.map (fileOf render) := by
-    rw [List.filter_eq_self]; intro p hp
-    obtain ⟨q, _, rfl⟩ := List.mem_map.1 hp
-    simp [fileOf]
-  rw [metadataView_eq, List.filter_append, List.filter_append, h1, h2, h3, h4]
-  simp [List.foldl_append]
+theorem loadMetadata_names (parse : String → Cell) (fnum : Nat → Option Int) (header : List String)
+    (rows : List (List String)) (fields : List (String × List (Cell × Cell)))
+    (h : loadMetadata parse fnum (.table header rows) = some fields) : ∀ fd ∈ fields, fd.1 ∈ header := by
+  rw [loadMetadata_table] at h
+  have h' := Option.some.inj h
+  subst h'
+  suffices hs : ∀ (rs : List (List (String × String))) (out : List (String × List (Cell × Cell))),
+      (∀ r ∈ rs, ∀ p ∈ r, p.1 ∈ header) → (∀ fd ∈ out, fd.1 ∈ header) →
+      ∀ fd ∈ rs.foldl (rowStep parse fnum) out, fd.1 ∈ header by
+    apply hs
+    · intro r hr p hp
+      obtain ⟨r0, _, rfl⟩ := List.mem_map.1 hr
+      exact (List.of_mem_zip (List.mem_filter.1 hp).1).1
+    · intro fd hfd; cases hfd
+  intro rs
+  induction rs with
+  | nil => intro out _ h; exact h
+  | cons r rs ih =>
+    intro out hr hout
+    rw [List.foldl_cons]
+    apply ih _ (fun r' hr' => hr r' (List.mem_cons_of_mem _ hr'))
+    exact rowStep_names parse fnum (· ∈ header) out r hout (hr r (List.mem_cons_self ..))
 
-theorem viewStep_fileOf (render : Cell → String) (parse : String → Cell)
-    (hrt : ∀ c, parse (render c) = c) (hne : ∀ c, render c ≠ "")
-    (hid : ∀ n : Nat, parse (toString n) = .int n)
-    (acc : List (String × List (Cell × Cell))) (f : String) (data : List (Nat × Cell))
-    (hf : f ≠ "cluster_id") (hs : Sorted data) :
-    viewStep parse acc (fileOf render (f, data)) =
-      if f = "info" ∨ data = [] then acc
-      else (acc.filter fun q => q.1 != f) ++ [(f, data.map cellPair)] := by
-  have hstem : ("cluster_" ++ f == "cluster_info") = (f == "info") := stem_beq f "info"
-  simp only [viewStep, fileOf, hstem, loadMetadata_simpleTable render parse hrt hne hid f hf data hs]
-  by_cases h1 : f = "info"
-  · simp [h1]
-  · by_cases h2 : data = []
-    · simp [h1, h2]
-    · simp [h1, h2]
-
-theorem lookup_view_ne (render : Cell → String) (parse : String → Cell)
-    (hrt : ∀ c, parse (render c) = c) (hne : ∀ c, render c ≠ "")
-    (hid : ∀ n : Nat, parse (toString n) = .int n) (field : String)
-    (l : List (String × List (Nat × Cell))) :
-    ∀ acc, FieldsOK l → (∀ p ∈ l, p.1 ≠ field) →
-      ((l.map (fileOf render)).foldl (viewStep parse) acc).lookup field = acc.lookup field := by
+theorem lookup_none_of_not_mem {β : Type} (l : List (String × β)) (k : String) (h : ∀ p ∈ l, p.1 ≠ k) :
+    l.lookup k = none := by
   induction l with
-  | nil => intro acc _ _; rfl
+  | nil => rfl
   | cons p ps ih =>
-    intro acc hok hall
-    obtain ⟨f, data⟩ := p
-    have hp := hok.2 (f, data) (List.mem_cons_self ..)
-    have hok' : FieldsOK ps :=
-      ⟨(List.nodup_cons.1 hok.1).2, fun q hq => hok.2 q (List.mem_cons_of_mem _ hq)⟩
-    rw [List.map_cons, List.foldl_cons, ih _ hok' (fun q hq => hall q (List.mem_cons_of_mem _ hq)),
-      viewStep_fileOf render parse hrt hne hid acc f data hp.1 hp.2]
-    split
-    · rfl
-    · exact lookup_upsert_ne _ _ _ _ (fun h => hall (f, data) (List.mem_cons_self ..) h.symm)
+    obtain ⟨a, b⟩ := p
+    have hb : (k == a) = false := by simpa using fun e => h (a, b) (List.mem_cons_self ..) e.symm
+    simp only [List.lookup_cons, hb]
+    exact ih (fun q hq => h q (List.mem_cons_of_mem _ hq))
 
-theorem lookup_view (render : Cell → String) (parse : String → Cell)
-    (hrt : ∀ c, parse (render c) = c) (hne : ∀ c, render c ≠ "")
-    (hid : ∀ n : Nat, parse (toString n) = .int n) (field : String) (vals : List (Nat × Cell))
-    (hinfo : field ≠ "info") (hvals : vals ≠ [])
-    (l : List (String × List (Nat × Cell))) :
-    ∀ acc, FieldsOK l → l.lookup field = some vals →
-      ((l.map (fileOf render)).foldl (viewStep parse) acc).lookup field =
-        some (vals.map cellPair) := by
-  induction l with
-  | nil => intro acc _ h; simp at h
-  | cons p ps ih =>
-    intro acc hok hl
-    obtain ⟨f, data⟩ := p
-    have hp := hok.2 (f, data) (List.mem_cons_self ..)
-    have hnd := List.nodup_cons.1 hok.1
-    have hok' : FieldsOK ps := ⟨hnd.2, fun q hq => hok.2 q (List.mem_cons_of_mem _ hq)⟩
-    rw [List.map_cons, List.foldl_cons,
-      viewStep_fileOf render parse hrt hne hid acc f data hp.1 hp.2]
-    rw [List.lookup_cons] at hl
-    by_cases hff : field = f
-    · subst hff
-      simp only [beq_self_eq_true, Option.some.injEq] at hl
-      subst hl
-      rw [lookup_view_ne render parse hrt hne hid field ps _ hok']
-      · simp only [hinfo, hvals, or_self, if_false]
-        exact lookup_upsert_self _ _ _
-      · intro q hq hqf
-        exact hnd.1 (List.mem_map.2 ⟨q, hq, hqf⟩)
-    · have hb : (field == f) = false := by simpa using hff
-      simp only [hb] at hl
-      exact ih _ hok' hl
-
-theorem metadata_last_saved (render : Cell → String) (parse : String → Cell)
-    (hrt : ∀ c, parse (render c) = c) (hne : ∀ c, render c ≠ "")
-    (hid : ∀ n : Nat, parse (toString n) = .int n) (scale : α → α)
-    (d : Disk α) (hcsv : ∀ p ∈ d.files, p.1.2 = false)   -- any legacy CSV files, any content
-    (ops : List Op) (hown : OwnOps ops) (field : String) (vals : List (Nat × Cell))
-    (hf : (absRun ⟨[], []⟩ ops).fields.lookup field = some vals)
-    (hinfo : field ≠ "info")     -- `cluster_info.tsv` is deliberately ignored on load
-    (hvals : vals ≠ []) :
-    fieldView parse (run render scale d ops) field =
-      some (vals.map fun p => (Cell.int p.1, p.2)) := by
-  have hfiles := files_eq render d.files hcsv scale ops d ⟨[], []⟩
-    (fun op hop => by
-      have := hown op hop
-      cases op <;> first | exact this | trivial) (by simp)
-  have hok := fieldsOK_run ops ⟨[], []⟩ hown ⟨List.nodup_nil, fun _ h => by simp at h⟩
-  rw [fieldView, hfiles, metadataView_split render parse d.files hcsv]
-  exact lookup_view render parse hrt hne hid field vals hinfo hvals _ _ hok hf
+theorem fileField_none_of_header (parse : String → Cell) (fnum : Nat → Option Int) (field : String)
+    (name : FName) (header : List String) (rows : List (List String)) (h : field ∉ header) :
+    fileField parse fnum field (name, .table header rows) = none := by
+  unfold fileField
+  split
+  · rfl
+  · cases hl : loadMetadata parse fnum (.table header rows) with
+    | none => rfl
+    | some fields =>
+      simp only [Option.bind_some]
+      apply lookup_none_of_not_mem
+      intro p hp e
+      apply h
+      rw [← e]
+      exact loadMetadata_names parse fnum header rows fields hl p (List.mem_reverse.1 hp)
 
 /-! ### frame -/
 
@@ -430,5 +633,71 @@ theorem step_frame (render : Cell → String) (scale : α → α) (d : Disk α) 
   cases op with
   | saveMeta field m => exact lookup_upsert_ne _ _ _ _ hs
   | writeFile s f => exact lookup_upsert_ne _ _ _ _ hs
-  | _ => rfl
+  | saveClusters sc => simp only [step]; split <;> rfl
+  | saveSubset sel maxN => simp only [step]; split <;> rfl
+  | close => rfl
+  | reload => simp only [step]; split <;> rfl
+
+theorem lookup_writeAssign_ne (name n : CName) (sc : List Nat) (h : n ≠ name) :
+    ∀ (l : List (CName × List Nat)), (writeAssign name sc l).lookup n = l.lookup n
+  | [] => by
+    have hb : (n == name) = false := by simpa using h
+    simp [writeAssign, List.lookup_cons, hb]
+  | q :: qs => by
+    obtain ⟨a, b⟩ := q
+    by_cases e : a = name
+    · have hb : (n == name) = false := by simpa using h
+      subst e
+      simp [writeAssign, List.lookup_cons, hb]
+    · simp only [writeAssign, e, if_false, List.lookup_cons, lookup_writeAssign_ne name n sc h qs]
+
+/-- everything `touched` does not name keeps its content -/
+theorem step_writes_only (render : Cell → String) (scale : α → α) (d : Disk α) (op : Op) :
+    (step render scale d op).fixed = d.fixed ∧
+    (Target.subsetStore ∉ touched d op → (step render scale d op).subset = d.subset) ∧
+    (∀ n, Target.assign n ∉ touched d op → (step render scale d op).assign.lookup n = d.assign.lookup n) ∧
+    (∀ n, Target.table n ∉ touched d op → (step render scale d op).files.lookup n = d.files.lookup n) := by
+  cases op with
+  | saveClusters sc =>
+    cases h : findAssign d.assign with
+    | none => simp [step, touched, h]
+    | some p =>
+      simp only [step, touched, h, List.mem_singleton, Target.assign.injEq, true_and, reduceCtorEq,
+        not_false_eq_true, forall_const, and_true]
+      intro n hn
+      exact lookup_writeAssign_ne p.1 n sc hn d.assign
+  | saveMeta field m =>
+    simp only [step, touched, List.mem_singleton, Target.table.injEq, true_and, reduceCtorEq,
+      not_false_eq_true, forall_const]
+    intro n hn
+    exact lookup_upsert_ne _ _ _ _ hn
+  | writeFile s f =>
+    simp only [step, touched, List.mem_singleton, Target.table.injEq, true_and, reduceCtorEq,
+      not_false_eq_true, forall_const]
+    intro n hn
+    exact lookup_upsert_ne _ _ _ _ hn
+  | saveSubset sel maxN =>
+    cases h : d.fixed.hasRaw <;> simp [step, touched, h]
+  | close => simp [step, touched]
+  | reload =>
+    cases h : findAssign d.assign with
+    | some p => simp [step, touched, h]
+    | none =>
+      have he := findAssign_none _ h
+      have hs : step render scale d .reload = { d with assign := [(none, d.fixed.spikeTemplates)] } := by
+        simp only [step, h]
+        rw [he]
+        rfl
+      have ht : touched d .reload = [.assign none] := by simp only [touched, h]
+      rw [hs, ht]
+      refine ⟨rfl, fun _ => rfl, ?_, fun _ _ => rfl⟩
+      intro n hn
+      have hne : n ≠ none := fun e => hn (by rw [e]; exact List.mem_singleton.2 rfl)
+      have hb : (n == none) = false := by
+        cases n with
+        | none => exact absurd rfl hne
+        | some x => rfl
+      rw [he]
+      simp [List.lookup_cons, hb]
+
 end PhyVerif.C10.Lemmas
